@@ -270,6 +270,41 @@ def export_roundtrip(ctx, tdir):
     if not ok:
         ctx.violation("export-roundtrip", "exported training set does not return the curves' features / ratings "
                       "in container order", {"observed": detail})
+    # the same manager after it was inspected and the container then grew / was re-rated: an export must
+    # describe the container as it is now
+    with warnings.catch_warnings():
+        warnings.simplefilter("ignore")
+        try:
+            _ = rm.ratings
+            _ = rm.datasets
+            keys = pool.keys()
+            first = saved[0]
+            rio.save_hdf5(h5, first[1], 9, "ann", "re-rated")
+            (fi, enum) = keys[4] if len(keys) > 4 else keys[0]
+            extra = pool.get(fi, enum, "A")
+            rio.save_hdf5(h5, extra, 1, "ann", "")
+            now = {k: r for k, _, r in saved}
+            now[first[0]] = 9
+            now[rio.hash_file(extra.path) + f"_{extra.enum}"] = 1
+            want = [float(now[k]) for k in sorted(now)]
+            rm.export_training_set(tdir / "ts_export2")
+            X2, y2 = IndentationRater.load_training_set(tdir / "ts_export2", which_type="all", remove_nan=False,
+                                                        replace_inf=False, impute_zero_rated_nan=False)
+            Xg, yg = rm.get_training_set(which_type="all")
+            got = {"exported": [float(v) for v in np.atleast_1d(y2)], "get_training_set": [float(v) for v in yg],
+                   "exported rows": int(np.atleast_2d(X2).shape[0]), "get rows": int(np.atleast_2d(Xg).shape[0])}
+        except BaseException as e:  # noqa
+            got = {"raised": repr(e)}
+            want = None
+    ctx.case({"oracle": "export-after-change"}, nontrivial="export2", bucket="stream=export")
+    if want is None or got["exported"] != want or got["get_training_set"] != want or \
+            got["exported rows"] != len(want) or got["get rows"] != len(want):
+        ctx.violation("export-stale-after-container-change",
+                      "RateManager inspected (.ratings / .datasets), container then re-rated and extended with "
+                      f"save_hdf5, then exported: responses {got} but the container holds {want}",
+                      {"history": ["rm = RateManager(h5)", "rm.ratings; rm.datasets", "save_hdf5(curve 0, rating 9)",
+                                   "save_hdf5(new curve, rating 1)", "rm.export_training_set(); rm.get_training_set()"],
+                       "observed": got, "expected": want})
 
 
 def replay(ctx, path):
